@@ -62,7 +62,7 @@ def parse_tla_seq(txt):
 
 
 # ---------------------------------------------------------------- history -> script
-def script_of(hist, rng, nmax=24, threads=(1, 2, 4), ienv=None, scale_for_equil=True, pert=None, track=True, matgen=None, symmetric=False, tight=0, scale=None, rhs=None):
+def script_of(hist, rng, nmax=24, threads=(1, 2, 4), twod=False, ienv=None, scale_for_equil=True, pert=None, track=True, matgen=None, symmetric=False, tight=0, scale=None, rhs=None):
     # shape of the right-hand sides: one | multi (2..3 columns, tight) | multi_pad (2..3 columns, leading dimensions > n) | zero
     def rhs_shape(default_n, default_pad, default_padx):
         if rhs == "one":
@@ -76,7 +76,11 @@ def script_of(hist, rng, nmax=24, threads=(1, 2, 4), ienv=None, scale_for_equil=
         return default_n, default_pad, default_padx
     lines = []
     ps, rl, ms = ienv or (rng.choice([1, 2, 4, 8]), rng.choice([1, 2, 3, 4, 6] if symmetric else [1, 2, 4]), rng.choice([2, 4, 8]))
-    lines.append("ienv p1=%d p2=%d p3=%d" % (ps, rl, ms))
+    if twod and not symmetric and rng.random() < 0.34:
+        # small 2-D blocking cut-offs (sp_ienv 4 / 5) and wide supernodes: the 2-D panel update, which ordinary sizes never select on small matrices
+        lines.append("ienv p1=%d p2=%d p3=%d p4=%d p5=%d" % (ps, rl, 8, rng.choice([2, 3, 4]), rng.choice([2, 3])))
+    else:
+        lines.append("ienv p1=%d p2=%d p3=%d" % (ps, rl, ms))
     if track:
         lines.append("track on=1")
     if pert:
